@@ -46,7 +46,7 @@ VARIABLES
     cur,        \* cur[s]: index of the message s is sending / will send next
     nxt,        \* nxt[s]: next packet index to transmit of the current message
     rpc,        \* receiver: "idle" | "setnb" | "poll" | "inpoll" | "recvmsg" | "inrecv" | "clearnb" |
-                \*           "follow" | "closeded" | "ret"
+                \*           "follow" | "infollow" | "closeded" | "ret"
     call,       \* index into Plan of the call in progress
     rm, rgot,   \* message being reassembled and packets obtained so far (sequence of <<m,i>>)
     res,        \* result of the call in progress
@@ -144,7 +144,7 @@ SendFirst(s) ==
 DedReadable(s, m) ==
     \/ holdsRx[s]
     \/ \E i \in 1..Len(shared) : shared[i].m = m
-    \/ (rm = m /\ res = "partial" /\ rpc \in {"clearnb", "follow"})
+    \/ (rm = m /\ res = "partial" /\ rpc \in {"clearnb", "follow", "infollow"})
 
 SendFollow(s) ==
     /\ spc[s] = "follow"
@@ -239,10 +239,12 @@ SetNonblock ==
     /\ UNCHANGED <<shared, call, rm, rgot, res, delivered, rlog>> /\ RUnch
 
 \* poll() is entered; the thread sleeps in the kernel
+\* (`rdy`: something is readable already; then the call returns at once whatever its timeout - the
+\* harness passes a tiny timeout in that case, a long one when the model ends the wait by an arrival)
 PollEnter ==
     /\ rpc = "poll"
     /\ rpc' = "inpoll"
-    /\ Step(0, "poll")
+    /\ sched' = Append(sched, [a |-> 0, k |-> "poll", rdy |-> (shared # <<>> \/ ~AnySender)])
     /\ UNCHANGED <<shared, call, rm, rgot, res, nonblock, delivered, rlog>> /\ RUnch
 
 \* poll() returns: readable / hung up, or the timeout expired with nothing there
@@ -291,20 +293,35 @@ ClearNonblock ==
     /\ Step(0, "fcntl")
     /\ UNCHANGED <<shared, call, rm, rgot, res, delivered, rlog>> /\ RUnch
 
-\* recv() on the dedicated socket (always blocking); with FollowOnShared, on the channel's socket
+\* recv() on the dedicated socket (always blocking); with FollowOnShared, on the channel's socket.
+\* The call completes at once when a fragment (or the end of file left by a dead sender) is there;
+\* otherwise the thread sleeps in it until the sender gets that far (RecvFollowWake).
+FollowSrc == IF FollowOnShared THEN shared ELSE ded[rm]
+FollowEof == FollowSrc = <<>> /\ ~FollowOnShared /\ ~dedTx[rm] /\ spc[rm[1]] = "dead"   \* EOF mid-message
+RecvFollowEffect ==
+    LET src == FollowSrc
+    IN \/ /\ src # <<>>
+          /\ rgot' = Append(rgot, <<Head(src).m, Head(src).i>>)
+          /\ IF FollowOnShared THEN shared' = Tail(shared) /\ ded' = ded
+                               ELSE ded' = [ded EXCEPT ![rm] = Tail(@)] /\ shared' = shared
+          /\ IF Len(rgot') = NPk(rm) THEN res' = "msg" /\ rpc' = "closeded"
+                                     ELSE res' = res /\ rpc' = "follow"
+       \/ /\ FollowEof
+          /\ res' = IncompleteIs /\ rpc' = "closeded"
+          /\ UNCHANGED <<shared, ded, rgot>>
+
 RecvFollow ==
     /\ rpc = "follow"
-    /\ LET src == IF FollowOnShared THEN shared ELSE ded[rm]
-       IN \/ /\ src # <<>>
-             /\ rgot' = Append(rgot, <<Head(src).m, Head(src).i>>)
-             /\ IF FollowOnShared THEN shared' = Tail(shared) /\ ded' = ded
-                                  ELSE ded' = [ded EXCEPT ![rm] = Tail(@)] /\ shared' = shared
-             /\ IF Len(rgot') = NPk(rm) THEN res' = "msg" /\ rpc' = "closeded"
-                                        ELSE res' = res /\ rpc' = rpc
-          \/ /\ src = <<>> /\ ~FollowOnShared /\ ~dedTx[rm] /\ spc[rm[1]] = "dead"   \* EOF mid-message
-             /\ res' = IncompleteIs /\ rpc' = "closeded"
-             /\ UNCHANGED <<shared, ded, rgot>>
+    /\ IF FollowSrc = <<>> /\ ~FollowEof
+         THEN rpc' = "infollow" /\ UNCHANGED <<shared, ded, rgot, res>>
+         ELSE RecvFollowEffect
     /\ Step(0, "recv")
+    /\ UNCHANGED <<dedTx, spc, cur, nxt, call, rm, nonblock, delivered, rlog, done, hb, killed>> /\ UNCHANGED SV
+
+RecvFollowWake ==
+    /\ rpc = "infollow" /\ (FollowSrc # <<>> \/ FollowEof)
+    /\ RecvFollowEffect
+    /\ Step(0, "wake")
     /\ UNCHANGED <<dedTx, spc, cur, nxt, call, rm, nonblock, delivered, rlog, done, hb, killed>> /\ UNCHANGED SV
 
 \* the receiver's copy of the dedicated receiving end is dropped at the end of recv()
@@ -327,7 +344,7 @@ RecvRet ==
 SenderStep(s) == SendSingle(s) \/ MkDedicated(s) \/ SendFirst(s) \/ SendFollow(s)
                  \/ CloseDedRx(s) \/ CloseDedTx(s) \/ DropHandle(s)
 ReceiverStep == RecvCall \/ RecvDrop \/ SetNonblock \/ PollEnter \/ PollRet \/ RecvMsg \/ RecvMsgWake
-                \/ ClearNonblock \/ RecvFollow \/ RecvCloseDed \/ RecvRet
+                \/ ClearNonblock \/ RecvFollow \/ RecvFollowWake \/ RecvCloseDed \/ RecvRet
 
 Next == (\E s \in Senders : SenderStep(s) \/ Kill(s)) \/ ReceiverStep
 
